@@ -199,13 +199,21 @@ impl<'a, I: Iterator<Item = Item>, F: StreamFilter + 'a> Iterator for Compaction
                     let drop_weak_tombstone = peeked.key.value_type == ValueType::Value
                         && head.key.value_type == ValueType::WeakTombstone;
 
+                    if drop_weak_tombstone {
+                        // NOTE: A weak tombstone cancels out exactly the one value beneath it.
+                        // Older entries of the key must stay: an older weak tombstone may still
+                        // hide a value that lives in a table which is not part of this stream
+                        if let Some(Ok(dropped)) = self.inner.next() {
+                            if let Some(watcher) = &mut self.dropped_callback {
+                                watcher.on_dropped(&dropped);
+                            }
+                        }
+                        continue;
+                    }
+
                     // NOTE: Next item is expired,
                     // so the tail of this user key is entirely expired, so drain it all
                     fail_iter!(self.drain_key(&head.key.user_key));
-
-                    if drop_weak_tombstone {
-                        continue;
-                    }
                 }
             } else if head.is_tombstone() && self.evict_tombstones {
                 continue;
